@@ -445,12 +445,18 @@ def _arg_term(E, st, a, k):
     return E.coerce(a, k).t
 
 
+_REC_SERIAL = [0]
+
+
 def rec_function(E, sf):
     f = E.recfns.get(sf.name)
     if f is not None:
         return f
     sorts = [sort_of(k) for _, k in sf.params] + [sort_of(sf.returns)]
-    f = z3.RecFunction("spec_" + sf.name, *sorts)
+    # (z3 keeps recursive definitions per context, the cache above is per engine: a worker process that verifies a second
+    #  target would define the same name twice -- every engine gets its own name)
+    _REC_SERIAL[0] += 1
+    f = z3.RecFunction("spec_%s!%d" % (sf.name, _REC_SERIAL[0]) if _REC_SERIAL[0] > 1 else "spec_" + sf.name, *sorts)
     E.recfns[sf.name] = f
     params = [z3.Const("p_%s_%s" % (sf.name, n), sort_of(k)) for n, k in sf.params]
     s = State()
